@@ -143,8 +143,8 @@ checks["C19"] = {"level": "model_checking",
  "bounds_thorough": "tables of 4, 5 and 6 types",
  "assumptions": ["property flags restricted to the 8 defined low bits", "single heap", "fallback clause: request with two eligible host-visible types sharing a heap, every AllocateMemory call may fail (up to 8 faults): a failing request must have attempted both types"], "outside": "more than 6 memory types; fallback among more than two eligible types"}
 checks["C20"] = {"level": "model_checking",
- "jobs": [vjob("Verif_C20_Teardown", [0, 16], [0, 16, 1, 4])],
- "bounds_quick": "histories of 3 calls (block and dedicated allocations, pool creation in 2 variants, frees), then everything is freed in ascending or descending order - or one chosen allocation is deliberately leaked - then pools and allocator are destroyed; device variant with an excluded (AMD device-coherent) memory type; assertions: retained blocks per list <= max(minBlockCount,1), teardown succeeds and leaves no device memory and no mapping, a leak is reported as an error and its memory is not released, pool identities distinct, no invalid driver call",
+ "jobs": [vjob("Verif_C20_Teardown", [0, 1, 16], [0, 16, 1, 4])],
+ "bounds_quick": "histories of 3 calls (block and dedicated allocations, pool creation in 2 variants, frees), then everything is freed in ascending or descending order - or one chosen allocation is deliberately leaked - then pools and allocator are destroyed; device variants: an excluded (AMD device-coherent) memory type; buffer-image granularity 1024 (larger than the blocks of heap 0, so that block allocations of unknown kind outgrow a freshly created block and fall back to dedicated memory); assertions: retained blocks per list <= max(minBlockCount,1), teardown succeeds and leaves no device memory and no mapping, a leak is reported as an error and its memory is not released, pool identities distinct, no invalid driver call",
  "bounds_thorough": "all allocation and pool variants, more device variants",
  "assumptions": VAM_ASSUME, "outside": VAM_OUT}
 
